@@ -6,6 +6,7 @@
 
 #include "parameters.h"
 
+static void remove_whitespace_around_parentheses(char *list);
 static char *tokenise_by_commas_and_whitespace(char *list);
 static char *skip_nulls_until(char *pointer, char *pointer_end);
 static char *end_of_token(char *token);
@@ -31,10 +32,11 @@ CgreenVector *create_vector_of_names(const char *parameters) {
         return names;
     }
 
+    remove_whitespace_around_parentheses(parameters_to_tokenize);
     parameters_end = parameters_to_tokenize + strlen(parameters_to_tokenize);
     tokens = tokenise_by_commas_and_whitespace(parameters_to_tokenize);
     token = tokens;
-    while (token < tokens + strlen(parameters)) {
+    while (token < parameters_end) {
         token = skip_nulls_until(token, parameters_end);
         int length_of_token = strlen(token);
         token = strip_function_from(token, "box_double");
@@ -70,10 +72,11 @@ CgreenVector *create_vector_of_double_markers_for(const char *parameters) {
         return markers;
     }
 
+    remove_whitespace_around_parentheses(parameters_to_tokenize);
     parameters_end = parameters_to_tokenize + strlen(parameters_to_tokenize);
     tokens = tokenise_by_commas_and_whitespace(parameters_to_tokenize);
     token = tokens;
-    while (token < tokens + strlen(parameters)) {
+    while (token < parameters_end) {
         token = skip_nulls_until(token, parameters_end);
         int length_of_token = strlen(token);
         if (begins_with(token, "box_double"))
@@ -87,6 +90,25 @@ CgreenVector *create_vector_of_double_markers_for(const char *parameters) {
 
     free(tokens);
     return markers;
+}
+
+/* "box_double( d )" and "box_double (d)" are the same argument as "box_double(d)" */
+static void remove_whitespace_around_parentheses(char *list) {
+    char *from = list;
+    char *to = list;
+
+    while (*from != '\0') {
+        if (isspace((int)*from)) {
+            char *next = from;
+            while (isspace((int)*next)) next++;
+            if (*next == '(' || *next == ')' || (to > list && *(to - 1) == '(')) {
+                from = next;
+                continue;
+            }
+        }
+        *to++ = *from++;
+    }
+    *to = '\0';
 }
 
 static char *tokenise_by_commas_and_whitespace(char *list) {
